@@ -43,6 +43,8 @@ enum Op {
     /// the report in flight for k reads attribute 0 / attributes 1 and 2 (two chunks)
     Read1(u8),
     Read2(u8),
+    /// both chunks at once (a report that fits one message)
+    ReadAll(u8),
     /// the report in flight for k completes (peer acknowledged) / fails
     DoneOk(u8),
     DoneFail(u8),
@@ -101,6 +103,8 @@ struct Sys {
     ticks: u8,
     fault: Option<(String, String)>,
     stats_primings_with_change_inside: u64,
+    /// `now` sampled at the start of the reporter iteration in progress
+    reporter_now: Option<Instant>,
 }
 
 impl Drop for Sys {
@@ -136,6 +140,7 @@ impl Sys {
             ticks: 0,
             fault: None,
             stats_primings_with_change_inside: 0,
+            reporter_now: None,
         }
     }
 
@@ -245,6 +250,11 @@ impl Sys {
         }
         // the table may have dropped it (cancelled while in flight)
         self.sync_liveness();
+        if f.kind == Kind::Report {
+            // the reporter's inner loop goes on within the same iteration: report() again with the
+            // iteration's `now`, and purge once nothing is reportable any more
+            self.reporter_continue();
+        }
         true
     }
 
@@ -280,19 +290,28 @@ impl Sys {
             return false;
         }
         let now = Instant::now();
+        self.reporter_now = Some(now);
         let subs = self.subs();
         let bufs = self.bufs();
         // 1. remove expired
         while subs.verif_remove(bufs, |s| s.is_expired(now).then_some("expired")) {}
         self.sync_liveness();
-        // 2. report() or else purge
+        self.reporter_continue();
+        true
+    }
+
+    /// The inner loop of a reporter iteration: `report()` with the iteration's `now`, or else purge.
+    fn reporter_continue(&mut self) -> bool {
+        let Some(now) = self.reporter_now else { return false };
+        let subs = self.subs();
+        let bufs = self.bufs();
         match subs.verif_report(now, 0, bufs) {
             Some(ctx) => {
                 let Some(k) = self.which_sub(&ctx) else {
                     self.fail("C13:model:report-for-unknown-subscriber", "report() returned a context for a subscriber that never subscribed".into());
                     return true;
                 };
-                let now_ms = self.now_ms();
+                let now_ms = now.as_millis();
                 let r = &self.refs[k];
                 // a report attempt later than last success + max interval must not happen
                 if let Some(ls) = r.last_success_ms {
@@ -309,7 +328,10 @@ impl Sys {
                 }
                 self.flights[k] = Some(Flight { ctx: Some(ctx), kind: Kind::Report, carry: [None; 3], read1: false, read2: false, start_ms: now_ms });
             }
-            None => subs.verif_purge_reported_changes(),
+            None => {
+                subs.verif_purge_reported_changes();
+                self.reporter_now = None;
+            }
         }
         true
     }
@@ -334,6 +356,11 @@ impl Sys {
             Op::Add(k) => self.add(k as usize),
             Op::Read1(k) => self.read(k as usize, 1),
             Op::Read2(k) => self.read(k as usize, 2),
+            Op::ReadAll(k) => {
+                let a = self.read(k as usize, 1);
+                let b = self.read(k as usize, 2);
+                a || b
+            }
             Op::DoneOk(k) => self.done(k as usize, true),
             Op::DoneFail(k) => self.done(k as usize, false),
             Op::Change(i) => {
@@ -417,6 +444,9 @@ impl Sys {
             // liveness: the announced deadline is within max interval of every idle subscriber's last success
             if !all_fail {
                 for &k in &live {
+                    if self.flights[k].is_some() {
+                        continue; // a report to this subscriber is under way right now
+                    }
                     if let Some(ls) = self.refs[k].last_success_ms {
                         if self.refs[k].fails_since_success == 0 && at.as_millis() > ls + MAX_INT as u64 * 1000 {
                             return Some(("C13:model:liveness-deadline-beyond-max-interval".into(), format!("subscriber {} last reported at {} ms, next report announced for {} ms", k, ls, at.as_millis())));
@@ -465,6 +495,7 @@ impl Sys {
 fn ops_for(tier: Tier) -> Vec<Op> {
     let mut v = vec![
         Op::Add(0),
+        Op::ReadAll(0),
         Op::Read1(0),
         Op::Read2(0),
         Op::DoneOk(0),
@@ -481,14 +512,14 @@ fn ops_for(tier: Tier) -> Vec<Op> {
         Op::Remove(0),
     ];
     if tier == Tier::Thorough {
-        v.extend([Op::DoneFail(1), Op::Change(2), Op::ChangeCluster, Op::ChangeEndpoint, Op::ChangeManyOther, Op::Tick(2), Op::Remove(1)]);
+        v.extend([Op::ReadAll(1), Op::DoneFail(1), Op::Change(2), Op::ChangeCluster, Op::ChangeEndpoint, Op::ChangeManyOther, Op::Tick(2), Op::Remove(1)]);
     }
     v
 }
 
 fn op_from(s: &str) -> Op {
     let all = [
-        Op::Add(0), Op::Add(1), Op::Read1(0), Op::Read1(1), Op::Read2(0), Op::Read2(1), Op::DoneOk(0), Op::DoneOk(1), Op::DoneFail(0), Op::DoneFail(1),
+        Op::Add(0), Op::Add(1), Op::ReadAll(0), Op::ReadAll(1), Op::Read1(0), Op::Read1(1), Op::Read2(0), Op::Read2(1), Op::DoneOk(0), Op::DoneOk(1), Op::DoneFail(0), Op::DoneFail(1),
         Op::Change(0), Op::Change(1), Op::Change(2), Op::ChangeCluster, Op::ChangeEndpoint, Op::ChangeManyOther, Op::Reporter, Op::Remove(0), Op::Remove(1),
         Op::Tick(0), Op::Tick(1), Op::Tick(2),
     ];
